@@ -124,6 +124,30 @@ def loss_case(rng):
     return "(sim (global 65000 1.1.1.1) (peers (a 10.0.0.1 65001) (b 10.0.0.2 65002) (c 10.0.0.3 65003)) (steps %s))" % " ".join(steps)
 
 
+def holdexpiry_case(rng):
+    """async: a peer with graceful restart goes silent, our hold timer runs out (NOTIFICATION, connection closed by us, the
+    receiving goroutine reports its read error at the same moment), the peer comes back; at the end the server stops.
+    Every goroutine of every ended session has to finish, whatever the order in which they report."""
+    steps = []
+    for p in "ab":
+        steps.append("(up %s gr=%d hold=9)" % (p, rng.choice([30, 120])))
+    for _ in range(rng.choice([1, 2, 3])):
+        v = rng.choice("ab")
+        o = "b" if v == "a" else "a"
+        for _ in range(rng.choice([0, 2, 4])):
+            steps.append("(upd %s (a 10.%d.0.0/24 0 (%d 65020) - - 0 () - ()))" % (o, rng.randrange(1, 4), 65001 + "ab".index(o)))
+        # nothing is heard from either peer for longer than the hold time (9 s): both sessions expire
+        steps.append("(sleep %d)" % rng.choice([10, 11, 15]))
+        steps.append("(wait)")
+        steps.append("(sleep 6)")
+        for p in "ab":
+            steps.append("(up %s now gr=%d hold=9)" % (p, rng.choice([30, 120])))
+    steps.append("(obs)")
+    # half of the scenarios: closing a connection takes a moment, so that the goroutine reading from it reports first
+    return "(sim (global 65000 1.1.1.1 async%s) (peers (a 10.0.0.1 65001 hold=9 gr=60) (b 10.0.0.2 65002 hold=9 gr=60 grnotif)) (steps %s))" % (
+        " slowclose" if rng.random() < 0.5 else "", " ".join(steps))
+
+
 def limit_case(rng):
     """sync: a peer exceeds its prefix limit (the session is shut down by the server itself, from the goroutine that
     handles the UPDATE); management calls and the other peer must keep working afterwards"""
@@ -192,6 +216,7 @@ def run(ctx):
     lines += [("session-loss-under-traffic", loss_case(rng)) for _ in range(n)]
     lines += [("peer-lifecycle", lifecycle_case(rng)) for _ in range(n // 2)]
     lines += [("prefix-limit", limit_case(rng)) for _ in range(n // 4)]
+    lines += [("hold-timer-expiry-with-graceful-restart", holdexpiry_case(rng)) for _ in range(n)]
     found = {}
     races = 0
     results = 0
